@@ -899,6 +899,258 @@ impl<'a> Decoder<'a> {
 }
 
 
+// ---------------- block decoder: backward scan ----------------
+/// entry p * ri + j of interval p (0 <= j < ri): its position inside the interval and its restart head
+proof fn lemma_interval(p: int, j: int, ri: int)
+    requires p >= 0, 0 <= j < ri
+    ensures (p * ri + j) % ri == j, base_of(p * ri + j, ri) == p * ri, p * ri >= 0
+{
+    lemma_mul_is_commutative(p, ri);
+    lemma_fundamental_div_mod_converse(p * ri + j, ri, p, j);
+    assert(p * ri >= 0) by (nonlinear_arith) requires p >= 0, ri >= 1;
+}
+/// h restart intervals cover n entries: (h - 1) * ri < n <= h * ri
+spec fn heads_cover(n: int, ri: int, h: int) -> bool { if n == 0 { h == 0 } else { h >= 1 && (h - 1) * ri < n <= h * ri } }
+/// number of entries of interval p
+spec fn isize_(n: int, ri: int, p: int) -> int { if (p + 1) * ri <= n { ri } else { n - p * ri } }
+proof fn lemma_isize(n: int, ri: int, h: int, p: int)
+    requires heads_cover(n, ri, h), 0 <= p < h, ri >= 1
+    ensures p * ri < n, 1 <= isize_(n, ri, p) <= ri, p * ri + isize_(n, ri, p) <= n, p < h - 1 ==> isize_(n, ri, p) == ri, p == h - 1 ==> p * ri + isize_(n, ri, p) == n, p * ri >= 0
+{
+    assert(p * ri <= (h - 1) * ri) by (nonlinear_arith) requires p <= h - 1, ri >= 1;
+    assert((p + 1) * ri == p * ri + ri) by (nonlinear_arith);
+    assert(p * ri >= 0) by (nonlinear_arith) requires p >= 0, ri >= 1;
+    if p < h - 1 { assert((p + 1) * ri <= (h - 1) * ri) by (nonlinear_arith) requires p + 1 <= h - 1, ri >= 1; }
+    if p == h - 1 { assert(h * ri == (h - 1) * ri + ri) by (nonlinear_arith); }
+}
+impl<'a> Decoder<'a> {
+    /// the back scanner holds the offsets of the first m entries of interval p on its stack (m > 0 ==> its base key is that interval's head)
+    spec fn hi_ok(&self, items: Seq<InternalValue>, p: int, m: int) -> bool {
+        let ri = self.restart_interval as int;
+        &&& p >= 0 && self.hi_scanner.ptr_idx == p && self.hi_scanner.stack@.len() == m && 0 <= m <= ri && p * ri + m <= items.len()
+        &&& forall|j: int| 0 <= j < m ==> (#[trigger] self.hi_scanner.stack@[j]) == body(items, p * ri + j, ri).len()
+        &&& m > 0 ==> self.hi_scanner.base_key_offset is Some && ({
+                let kp = self.hi_scanner.base_key_offset->Some_0 as int; let hk = ukey(items[p * ri]);
+                kp + hk.len() <= self.d().len() && self.d().subrange(kp, kp + hk.len()) == hk })
+    }
+
+//@ FROM src/table/block/decoder.rs :: impl < 'a , Item : Decodable < Parsed > , Parsed : ParsedItem < Item > > Decoder < 'a , Item , Parsed > :: fn consume_stack_top :: OBL C12.26, C03.17
+//@ SUBST `Option < Parsed >` ==> `Option<DataBlockParsedItem>`
+//@ SUBST `Cursor :: new ( unsafe { self . block . data . get_unchecked ( offset .. ) } )` ==> `self.block.data.cursor_from(offset)`
+//@ SUBST `Self :: parse_current_item ( $1 )` ==> `Self::parse_current_item($1 Ghost(oe), Ghost(shared), Ghost(tail))`
+    fn consume_stack_top(&mut self/*+*/, Ghost(items): Ghost<Seq<InternalValue>>, Ghost(rest): Ghost<Seq<u8>>, Ghost(p): Ghost<int>, Ghost(m): Ghost<int>/*-*/) -> /*+*/(r:/*-*/ Option<DataBlockParsedItem>/*+*/)
+        requires block_is(old(self).d(), items, old(self).restart_interval as int, rest), old(self).hi_scanner.stack@.len() == m, m > 0 ==> old(self).hi_ok(items, p, m), old(self).lo_scanner.offset == 0, old(self).d().len() <= usize::MAX / 4
+        ensures final(self).block == old(self).block, final(self).restart_interval == old(self).restart_interval, final(self).lo_scanner == old(self).lo_scanner,
+            // nothing on the stack: nothing happens
+            m == 0 ==> r is None && final(self).hi_scanner.ptr_idx == old(self).hi_scanner.ptr_idx && final(self).hi_scanner.stack@ == old(self).hi_scanner.stack@
+                && final(self).hi_scanner.base_key_offset == old(self).hi_scanner.base_key_offset && final(self).hi_scanner.offset == old(self).hi_scanner.offset,
+            // otherwise exactly the last stacked entry of the interval is yielded and leaves the stack
+            m > 0 ==> r is Some && item_is(r->Some_0, items[p * old(self).restart_interval + m - 1], old(self).d()) && final(self).hi_ok(items, p, m - 1)
+                && final(self).hi_scanner.base_key_offset == old(self).hi_scanner.base_key_offset,/*-*/
+    {
+        /*+*/let ghost d = self.d(); let ghost ri = self.restart_interval as int; let ghost i = p * ri + m - 1;
+        let ghost hk = ukey(items[p * ri]);
+        let ghost oe = if m > 0 { Some(items[i]) } else { None };
+        let ghost shared = if m > 0 { lspl(hk, ukey(items[i])) } else { 0 };
+        let ghost tail = d.skip(body(items, i + 1, ri).len() as int);
+        proof {
+            if m > 0 {
+                lemma_interval(p, m - 1, ri);
+                lemma_at(d, items, ri, rest, i);
+                lemma_lspl_prefix(hk, ukey(items[i]));
+                let o = body(items, i, ri).len() as int;
+                assert(self.hi_scanner.stack@[m - 1] == o);
+                assert(d.skip(o).skip(0) =~= d.skip(o));
+            }
+        }/*-*/
+        let offset = self.hi_scanner.stack.pop()?;
+
+        if self.lo_scanner.offset > 0 && offset < self.lo_scanner.offset {
+            return None;
+        }
+
+        self.hi_scanner.offset = offset;
+
+        let is_restart = self.hi_scanner.stack.is_empty();
+
+        let mut reader = self.block.data.cursor_from(offset);
+
+        /*+*/let r =/*-*/ Self::parse_current_item(
+            &mut reader,
+            offset,
+            self.hi_scanner.base_key_offset,
+            is_restart,
+        Ghost(oe), Ghost(shared), Ghost(tail))/*+*/;
+        proof { lemma_item_is(d, offset as int, r->Some_0, items[i], hk, self.hi_scanner.base_key_offset, shared, is_restart); }
+        r/*-*/
+    }
+//@ END
+}
+
+/// binary_index::Reader over the block (unit binary_index, C12.22): pointer i is the offset at which restart head i was written
+/// (Encoder::write records the writer length at every head, C12.17)
+struct BinaryIndexReader { ghost items: Seq<InternalValue>, ghost ri: int, ghost h: int }
+impl BinaryIndexReader {
+    #[verifier::external_body]
+    fn get(&self, idx: usize) -> (r: usize) requires idx < self.h ensures r == body(self.items, idx * self.ri, self.ri).len() { unimplemented!() }
+}
+impl<'a> Decoder<'a> {
+    /// get_binary_index_reader (trailer fields: unit trailer_rt, C12.23)
+    #[verifier::external_body]
+    fn get_binary_index_reader(&self, Ghost(items): Ghost<Seq<InternalValue>>, Ghost(h): Ghost<int>) -> (r: BinaryIndexReader)
+        ensures r.items == items, r.ri == self.restart_interval as int, r.h == h
+    { unimplemented!() }
+
+//@ FROM src/table/block/decoder.rs :: impl < 'a , Item : Decodable < Parsed > , Parsed : ParsedItem < Item > > Decoder < 'a , Item , Parsed > :: fn fill_stack :: OBL C12.26, C03.17
+//@ SUBST `self . get_binary_index_reader ( )` ==> `self.get_binary_index_reader(Ghost(items), Ghost(h))`
+//@ SUBST `Cursor :: new ( unsafe { self . block . data . get_unchecked ( offset .. ) } )` ==> `self.block.data.cursor_from(offset)`
+//@ SUBST `if Item :: parse_full ( & mut reader , offset ) . inspect ( | item | { $1 } ) . is_some ( ) {` ==> `if (match InternalValue::parse_full(&mut reader, offset, Ghost(oe0), Ghost(tail0)) { Some(item) => { { $1 } true } None => false }) {`
+//@ SUBST `if Item :: parse_truncated ( & mut reader , offset , self . hi_scanner . base_key_offset . expect ( "should exist" ) , ) . inspect ( | _ | { $1 } ) . is_some ( ) {` ==> `if (match InternalValue::parse_truncated(&mut reader, offset, self.hi_scanner.base_key_offset.expect("should exist"), Ghost(oe), Ghost(shared), Ghost(tail)) { Some(item__) => { { $1 } true } None => false }) {`
+//@ SUBST `for _ in 1 .. self . restart_interval {` ==> `let mut i__ = 1u8; loop { if i__ >= self.restart_interval { break; } i__ += 1;`
+    fn fill_stack(&mut self/*+*/, Ghost(items): Ghost<Seq<InternalValue>>, Ghost(rest): Ghost<Seq<u8>>, Ghost(h): Ghost<int>)
+        requires block_is(old(self).d(), items, old(self).restart_interval as int, rest), heads_cover(items.len() as int, old(self).restart_interval as int, h),
+            old(self).hi_scanner.ptr_idx < h, old(self).hi_scanner.stack@.len() == 0, old(self).d().len() <= usize::MAX / 4,
+        ensures final(self).block == old(self).block, final(self).restart_interval == old(self).restart_interval, final(self).lo_scanner == old(self).lo_scanner,
+            // the whole restart interval is on the stack
+            final(self).hi_ok(items, old(self).hi_scanner.ptr_idx as int, isize_(items.len() as int, old(self).restart_interval as int, old(self).hi_scanner.ptr_idx as int)/*-*/)/*+*/,/*-*/
+    {
+        /*+*/let ghost d = self.d(); let ghost ri = self.restart_interval as int; let ghost p = self.hi_scanner.ptr_idx as int; let ghost n = items.len() as int;
+        let ghost hk = ukey(items[p * ri]);
+        proof { lemma_isize(n, ri, h, p); lemma_interval(p, 0, ri); lemma_at(d, items, ri, rest, p * ri); }/*-*/
+        let binary_index = self.get_binary_index_reader(Ghost(items), Ghost(h));
+
+        {
+            self.hi_scanner.offset = binary_index.get(self.hi_scanner.ptr_idx);
+
+            let offset = self.hi_scanner.offset;
+            /*+*/let ghost oe0 = Some(items[p * ri]); let ghost tail0 = d.skip(body(items, p * ri + 1, ri).len() as int);
+            proof { assert(d.skip(offset as int).skip(0) =~= d.skip(offset as int)); }/*-*/
+
+            let mut reader = self.block.data.cursor_from(offset);
+
+            if (match InternalValue::parse_full(&mut reader, offset, Ghost(oe0), Ghost(tail0)) { Some(item) => { {
+                    self.hi_scanner.offset += reader.position() as usize;
+                    self.hi_scanner.base_key_offset = Some(item.key_offset());
+                    /*+*/proof { lemma_skip_sub(d, offset as int, item.key.0 as int, item.key.1 as int); assert(hk.skip(0) =~= hk); }/*-*/
+                } true } None => false })
+            {
+                self.hi_scanner.stack.push(offset);
+            }
+        }
+
+        let mut i__ = 1u8; loop
+            /*+*/invariant_except_break
+                1 <= i__ <= ri, i__ == self.hi_scanner.stack@.len(),
+                self.hi_ok(items, p, i__ as int),
+                self.hi_scanner.offset == body(items, p * ri + i__, ri).len(),
+            invariant self.block == old(self).block, self.restart_interval == old(self).restart_interval, self.lo_scanner == old(self).lo_scanner,
+                d == self.d(), ri == self.restart_interval as int, ri >= 1, n == items.len(), p >= 0, p * ri < n, block_is(d, items, ri, rest), d.len() <= usize::MAX / 4, hk == ukey(items[p * ri]),
+            ensures self.hi_ok(items, p, isize_(n, ri, p)),
+            decreases ri - i__/*-*/
+        { if i__ >= self.restart_interval { /*+*/proof { assert((p + 1) * ri == p * ri + ri) by (nonlinear_arith); }/*-*/ break; }
+            /*+*/let ghost c = i__ as int;/*-*/
+            i__ += 1;
+            let offset = self.hi_scanner.offset;
+            /*+*/let ghost oe = if p * ri + c < n { Some(items[p * ri + c]) } else { None };
+            let ghost shared = if p * ri + c < n { lspl(hk, ukey(items[p * ri + c])) } else { 0 };
+            let ghost tail = d.skip(body(items, p * ri + c + 1, ri).len() as int);
+            proof {
+                lemma_interval(p, c, ri);
+                lemma_at(d, items, ri, rest, p * ri + c);
+                if p * ri + c < n { lemma_lspl_prefix(hk, ukey(items[p * ri + c])); }
+                assert(d.skip(offset as int).skip(0) =~= d.skip(offset as int));
+                if p * ri + c == n { assert(d.skip(offset as int)[0] == d[offset as int]); }
+            }/*-*/
+
+            let mut reader = self.block.data.cursor_from(offset);
+
+            if (match InternalValue::parse_truncated(&mut reader, offset, self.hi_scanner.base_key_offset.expect("should exist"), Ghost(oe), Ghost(shared), Ghost(tail)) { Some(item__) => { {
+                    self.hi_scanner.offset += reader.position() as usize;
+                } true } None => false })
+            {
+                self.hi_scanner.stack.push(offset);
+            } else {
+                /*+*/proof { assert((p + 1) * ri == p * ri + ri) by (nonlinear_arith); }/*-*/
+                break;
+            }
+        }
+        /*+*/proof { assert((p + 1) * ri == p * ri + ri) by (nonlinear_arith); }/*-*/
+    }
+//@ END
+}
+
+impl<'a> Decoder<'a> {
+    /// b entries have not yet been yielded from the back: the next one is entry b - 1
+    spec fn back_at(&self, items: Seq<InternalValue>, h: int, b: int) -> bool {
+        let ri = self.restart_interval as int; let m = self.hi_scanner.stack@.len() as int; let n = items.len() as int;
+        if m > 0 { exists|p: int| #[trigger] self.hi_ok(items, p, m) && 0 <= p < h && b == p * ri + m }
+        else if self.hi_scanner.ptr_idx == usize::MAX { b == 0 }
+        // nothing taken yet (Decoder::new points behind the last interval), or interval ptr_idx fully consumed
+        else if self.hi_scanner.ptr_idx == h { b == n }
+        else { self.hi_scanner.ptr_idx < h && b == self.hi_scanner.ptr_idx * ri }
+    }
+
+//@ FROM src/table/block/decoder.rs :: impl < Item : Decodable < Parsed > , Parsed : ParsedItem < Item > > DoubleEndedIterator for Decoder < '_ , Item , Parsed > :: fn next_back :: OBL C12.26, C03.17
+//@ SUBST `Self :: Item` ==> `DataBlockParsedItem`
+//@ SUBST `self . consume_stack_top ( )` ==> `self.consume_stack_top(Ghost(items), Ghost(rest), Ghost(gp), Ghost(gm))`
+//@ SUBST `self . fill_stack ( )` ==> `self.fill_stack(Ghost(items), Ghost(rest), Ghost(h))`
+    fn next_back(&mut self/*+*/, Ghost(items): Ghost<Seq<InternalValue>>, Ghost(rest): Ghost<Seq<u8>>, Ghost(h): Ghost<int>, Ghost(b): Ghost<int>/*-*/) -> /*+*/(r:/*-*/ Option<DataBlockParsedItem>/*+*/)
+        requires block_is(old(self).d(), items, old(self).restart_interval as int, rest), heads_cover(items.len() as int, old(self).restart_interval as int, h), h < usize::MAX,
+            old(self).back_at(items, h, b), old(self).lo_scanner.offset == 0, old(self).d().len() <= usize::MAX / 4,
+        ensures final(self).block == old(self).block, final(self).restart_interval == old(self).restart_interval, final(self).lo_scanner == old(self).lo_scanner,
+            // everything has been yielded
+            b == 0 ==> r is None,
+            // otherwise exactly entry b - 1 is yielded and b - 1 entries remain
+            b > 0 ==> r is Some && item_is(r->Some_0, items[b - 1], old(self).d()) && final(self).back_at(items, h, b - 1),/*-*/
+    {
+        /*+*/let ghost ri = self.restart_interval as int; let ghost n = items.len() as int;
+        let ghost mut gm = self.hi_scanner.stack@.len() as int;
+        let ghost mut gp: int = if gm > 0 { choose|p: int| #[trigger] self.hi_ok(items, p, gm) && 0 <= p < h && b == p * ri + gm } else { 0 };
+        proof { if gm > 0 { lemma_interval(gp, gm - 1, ri); } }/*-*/
+        if let Some(top) = self.consume_stack_top(Ghost(items), Ghost(rest), Ghost(gp), Ghost(gm)) {
+            /*+*/proof {
+                // the interval still has entries on the stack, or is now fully consumed
+                if gm - 1 > 0 { assert(self.hi_ok(items, gp, gm - 1)); }
+            }/*-*/
+            return Some(top);
+        }
+
+        // NOTE: If we wrapped, we are at the end
+        // This is safe to do, because there cannot be that many restart intervals
+        if self.hi_scanner.ptr_idx == usize::MAX {
+            return None;
+        }
+
+        self.hi_scanner.ptr_idx = self.hi_scanner.ptr_idx.wrapping_sub(1);
+
+        // NOTE: If we wrapped, we are at the end
+        // This is safe to do, because there cannot be that many restart intervals
+        if self.hi_scanner.ptr_idx == usize::MAX {
+            /*+*/proof { assert(old(self).hi_scanner.stack@.len() == 0); assert(old(self).hi_scanner.ptr_idx == 0); assert(0 * ri == 0); }/*-*/
+            return None;
+        }
+
+        /*+*/let ghost ptr0 = old(self).hi_scanner.ptr_idx as int;
+        proof {
+            assert(old(self).hi_scanner.stack@.len() == 0);
+            assert(ptr0 > 0 && self.hi_scanner.ptr_idx == ptr0 - 1);
+            assert(self.hi_scanner.ptr_idx < h);
+            lemma_isize(n, ri, h, self.hi_scanner.ptr_idx as int);
+            assert((ptr0 - 1) * ri + ri == ptr0 * ri) by (nonlinear_arith);
+        }/*-*/
+        self.fill_stack(Ghost(items), Ghost(rest), Ghost(h));
+        /*+*/proof {
+            gp = self.hi_scanner.ptr_idx as int; gm = isize_(n, ri, gp); lemma_interval(gp, gm - 1, ri);
+            assert(gp * ri + gm == b);
+        }
+
+        let r =/*-*/ self.consume_stack_top(Ghost(items), Ghost(rest), Ghost(gp), Ghost(gm))/*+*/;
+        proof { if gm - 1 > 0 { assert(self.hi_ok(items, gp, gm - 1)); } assert(self.back_at(items, h, b - 1)); }
+        r/*-*/
+    }
+//@ END
+}
+
 /// `data.get(a..b)` on a byte slice
 #[verifier::external_body]
 fn slice_get_range<'a>(data: &'a [u8], a: usize, b: usize) -> (r: Option<&'a [u8]>)
